@@ -1,5 +1,844 @@
 package main
 
-import "verif/harness/lib"
+import (
+	"fmt"
+	"go/token"
+	"io"
+	"os"
+	"path/filepath"
+	"regexp"
+	"sort"
+	"strings"
 
-func stageSites(rep *lib.Report) []cidT { return nil }
+	"github.com/awslabs/ar-go-tools/analysis"
+	"github.com/awslabs/ar-go-tools/analysis/backtrace"
+	"github.com/awslabs/ar-go-tools/analysis/config"
+	"github.com/awslabs/ar-go-tools/analysis/dataflow"
+	"github.com/awslabs/ar-go-tools/analysis/lang"
+	"github.com/awslabs/ar-go-tools/analysis/taint"
+	"golang.org/x/tools/go/ssa"
+	"golang.org/x/tools/go/ssa/ssautil"
+	"verif/harness/lib"
+)
+
+// Stage 3: call sites and non-call locations of a generated multi-package module.
+//
+//   facts:   what the Go code reads from each real ssa call instruction == Entry.factsOf(site) (the SSA shape of
+//            every source-level call form as the model states it)
+//   cids:    identifiers recorded from the REAL IsEntrypointNode / IsMatchingCodeIDWithCallee (predicate that
+//            records and answers false) == Entry.entryCids / sinkCids / nodeCids
+//   bools:   REAL taint.IsSourceNode / backtrace.IsInterProceduralEntryPoint / IsMatchingCodeIDWithCallee with
+//            specifications loaded by config.Load == model, and == truth (the generator's callee knowledge)
+//            inside the proved domain; outside it a disagreement with the truth must be a recorded finding.
+
+type dumpedCall struct {
+	instr   ssa.CallInstruction
+	site    *siteT
+	facts   []string // fields of the facts record
+	callees []*ssa.Function
+	idx     int // index in the oracle's site table
+	reg     string
+}
+
+type dumpedNode struct {
+	instr ssa.Instruction
+	node  *nodeT
+}
+
+func receiverStr(s string) string {
+	s = strings.ReplaceAll(s, "*", "")
+	parts := strings.Split(s, ".")
+	return parts[len(parts)-1]
+}
+
+// dumper's reading of FindSafeCalleePkg (the recorded identifiers tie it to the real one)
+func safeCalleePkg(c *ssa.CallCommon) string {
+	if c.IsInvoke() && c.Method != nil {
+		if pkg := c.Method.Pkg(); pkg != nil {
+			return "+" + pkg.Path()
+		}
+		return "-"
+	}
+	if c.StaticCallee() == nil || c.StaticCallee().Pkg == nil {
+		return "-"
+	}
+	return "+" + c.StaticCallee().Pkg.Pkg.Path()
+}
+
+func valuePackage(v ssa.Value) string {
+	if f, ok := v.(*ssa.Function); ok {
+		pkg := f.Package()
+		if f.Signature.Recv() != nil && len(f.Params) > 0 {
+			pkg = f.Params[0].Parent().Package()
+		}
+		if pkg != nil {
+			return "+" + pkg.String()
+		}
+	}
+	return "-"
+}
+
+func dumpFacts(state *dataflow.AnalyzerState, ci ssa.CallInstruction) []string {
+	kind := "call"
+	switch ci.(type) {
+	case *ssa.Go:
+		kind = "go"
+	case *ssa.Defer:
+		kind = "defer"
+	}
+	c := ci.Common()
+	inv, vt, mn, sr := "0", "", "", ""
+	if c.IsInvoke() {
+		inv, vt, mn = "1", c.Value.Type().String(), c.Method.Name()
+	} else if c.Signature() != nil && c.Signature().Recv() != nil {
+		sr = receiverStr(c.Signature().Recv().Type().String())
+	}
+	var al [][2]string
+	if !c.IsInvoke() {
+		if ptr, ok := state.PointerAnalysis.Queries[c.Value]; ok {
+			for _, l := range ptr.PointsTo().Labels() {
+				if l.Value() != nil {
+					al = append(al, [2]string{valuePackage(l.Value()), l.Value().Name()})
+				}
+			}
+		}
+	}
+	sort.Slice(al, func(i, j int) bool { return al[i][0]+"\x00"+al[i][1] < al[j][0]+"\x00"+al[j][1] })
+	var dd [][2]string
+	for i, a := range al {
+		if i == 0 || a != al[i-1] {
+			dd = append(dd, a)
+		}
+	}
+	al = dd
+	out := []string{kind, ci.Parent().String(), ci.String(), inv, c.Value.Name(), vt, mn, safeCalleePkg(c), sr, fmt.Sprint(len(al))}
+	for _, a := range al {
+		out = append(out, a[0], a[1])
+	}
+	return out
+}
+
+func canonCids(cs []cidT) string {
+	var ps []string
+	for _, c := range cs {
+		var fs []string
+		for _, f := range c {
+			fs = append(fs, esc(f))
+		}
+		ps = append(ps, strings.Join(fs, "\t"))
+	}
+	sort.Strings(ps)
+	return strings.Join(ps, "\t|\t")
+}
+
+func canonOracleCids(line string) string {
+	if line == "c" {
+		return ""
+	}
+	ps := strings.Split(strings.TrimPrefix(line, "c\t|\t"), "\t|\t")
+	sort.Strings(ps)
+	return strings.Join(ps, "\t|\t")
+}
+
+func recorder(dst *[]cidT) func(config.CodeIdentifier) bool {
+	return func(c config.CodeIdentifier) bool { *dst = append(*dst, fromReal(c)); return false }
+}
+
+func fnOf(f *ssa.Function) fnT {
+	recv := ""
+	if f.Signature.Recv() != nil {
+		recv = receiverStr(f.Signature.Recv().Type().String())
+	}
+	return fnT{lang.PackageNameFromFunction(f), f.Name(), recv}
+}
+
+// entryReason names the hypothesis of the proved domain that fails for (site, specification).
+func entryReason(s *siteT, sp cidT, real byte) string {
+	switch {
+	case s.kind != "call":
+		return "go-defer-call-is-not-scanned"
+	case s.form == "invoke":
+		return "invoke-uses-interface-package-and-register-as-receiver"
+	case s.form == "funcValue":
+		return "function-value-identified-through-alias-label"
+	case sp[fVM] != "":
+		return "value-match-not-filled-for-entry-points"
+	case sp[fRecv] != "" && s.form == "staticMethod":
+		return "receiver-not-filled-for-static-method-entry-points"
+	case real == '1' && s.form == "staticFn" && s.fnValue:
+		return "static-call-of-address-taken-function-adds-alias-identifier"
+	}
+	return "unclassified"
+}
+
+func argReason(s *siteT, sp cidT, real byte, hasSummary bool) string {
+	switch {
+	case s.form == "invoke":
+		return "invoke-uses-interface-package-and-interface-type-as-receiver"
+	case s.form == "funcValue":
+		return "function-value-call-named-by-register"
+	case real == '1' && hasSummary:
+		return "callee-with-summary-also-tested-without-context-receiver-and-call-text"
+	}
+	return "unclassified"
+}
+
+func direction(real byte) string {
+	if real == '1' {
+		return "extra"
+	}
+	return "miss"
+}
+
+func stageSites(rep *lib.Report) []cidT {
+	r := lib.Rand("c04-sites")
+	nRun, nSpecs := 12, 260
+	if lib.Thorough() {
+		nRun, nSpecs = 60, 900
+	}
+	gp := genProgram(r, nRun)
+	dir := lib.WorkDir(prop, "sites")
+	lib.WriteProgram(dir, gp.mod, gp.files)
+	prog, pkgs, err := lib.LoadSSA(dir, ssa.InstantiateGenerics, false, "./...")
+	if err != nil {
+		rep.Fail("harness-load-sites", "generated module does not load: "+err.Error(), []byte(gp.files["main.go"]), true)
+		return nil
+	}
+	cfg0 := config.NewDefault()
+	cfg0.LogLevel = int(config.ErrLevel)
+	logger := config.NewLogGroup(cfg0)
+	logger.SetAllOutput(io.Discard)
+	var state *dataflow.AnalyzerState
+	quiet(func() { state, err = dataflow.NewInitializedAnalyzerState(prog, pkgs, logger, cfg0) })
+	if err != nil {
+		rep.Fail("harness-state-sites", "analyzer state: "+err.Error(), nil, true)
+		return nil
+	}
+	// summaries and the linked inter-procedural graph (call nodes, call-argument nodes, callee summaries)
+	quiet(func() {
+		analysis.RunIntraProceduralPass(state, 2, analysis.IntraAnalysisParams{ShouldBuildSummary: dataflow.ShouldBuildSummary, ShouldTrack: taint.IsNodeOfInterest})
+		state.FlowGraph.BuildGraph()
+	})
+	siteAt := map[string]*siteT{}
+	for _, s := range gp.sites {
+		siteAt[fmt.Sprintf("%s:%d", s.file, s.line)] = s
+	}
+	nodeAt := map[string]*nodeT{}
+	for _, n := range gp.nodes {
+		nodeAt[fmt.Sprintf("%s:%d:%s", n.file, n.line, n.ssaKind)] = n
+	}
+	var fns []*ssa.Function
+	for f := range ssautil.AllFunctions(prog) {
+		if f.Blocks == nil {
+			continue
+		}
+		path := ""
+		if f.Pkg != nil {
+			path = f.Pkg.Pkg.Path()
+		}
+		if path == gp.mod || strings.HasPrefix(path, gp.mod+"/") || (f.Pkg == nil && strings.Contains(f.String(), gp.mod)) {
+			fns = append(fns, f)
+		}
+	}
+	sort.Slice(fns, func(i, j int) bool { return fns[i].String() < fns[j].String() })
+	posKey := func(p token.Pos) string {
+		if !p.IsValid() {
+			return ""
+		}
+		pp := prog.Fset.Position(p)
+		rel, err := filepath.Rel(dir, pp.Filename)
+		if err != nil {
+			return ""
+		}
+		return fmt.Sprintf("%s:%d", filepath.ToSlash(rel), pp.Line)
+	}
+	var calls []*dumpedCall
+	var nodes []*dumpedNode
+	for _, f := range fns {
+		for _, b := range f.Blocks {
+			for _, ins := range b.Instrs {
+				switch x := ins.(type) {
+				case ssa.CallInstruction:
+					if _, isBuiltin := x.Common().Value.(*ssa.Builtin); isBuiltin {
+						continue
+					}
+					dc := &dumpedCall{instr: x, facts: dumpFacts(state, x), reg: x.Common().Value.Name()}
+					if f.Synthetic == "" {
+						dc.site = siteAt[posKey(x.Pos())]
+					}
+					if cs, err := state.ResolveCallee(x, false); err == nil {
+						for c := range cs {
+							dc.callees = append(dc.callees, c)
+						}
+						sort.Slice(dc.callees, func(i, j int) bool { return dc.callees[i].String() < dc.callees[j].String() })
+					}
+					calls = append(calls, dc)
+				case *ssa.FieldAddr:
+					if n := nodeAt[posKey(x.Pos())+":FieldAddr"]; n != nil {
+						nodes = append(nodes, &dumpedNode{x, n})
+					}
+				case *ssa.Field:
+					if n := nodeAt[posKey(x.Pos())+":Field"]; n != nil {
+						nodes = append(nodes, &dumpedNode{x, n})
+					}
+				case *ssa.Alloc:
+					if n := nodeAt[posKey(x.Pos())+":Alloc"]; n != nil {
+						nodes = append(nodes, &dumpedNode{x, n})
+					}
+				case *ssa.Store:
+					if n := nodeAt[posKey(x.Pos())+":Store"]; n != nil {
+						nodes = append(nodes, &dumpedNode{x, n})
+					}
+				case *ssa.UnOp:
+					if x.Op == token.ARROW {
+						if n := nodeAt[posKey(x.Pos())+":UnOp"]; n != nil {
+							nodes = append(nodes, &dumpedNode{x, n})
+						}
+					}
+				}
+			}
+		}
+	}
+	// every generated site must have been found in the SSA
+	found := map[*siteT]bool{}
+	for _, c := range calls {
+		if c.site != nil {
+			found[c.site] = true
+		}
+	}
+	foundN := map[*nodeT]bool{}
+	for _, n := range nodes {
+		foundN[n.node] = true
+	}
+	for _, s := range gp.sites {
+		if !found[s] {
+			rep.Fail("harness-site-unmapped", fmt.Sprintf("generated site %s:%d (%s %s) has no call instruction", s.file, s.line, s.form, s.kind), []byte(gp.files[s.file]), true)
+			return nil
+		}
+	}
+	for _, n := range gp.nodes {
+		if !foundN[n] {
+			rep.Fail("harness-node-unmapped", fmt.Sprintf("generated location %s:%d (%s) has no %s instruction", n.file, n.line, n.nk, n.ssaKind), []byte(gp.files[n.file]), true)
+			return nil
+		}
+	}
+
+	// ---- specifications: derived from the truth identifiers of sites and locations
+	var targets, nodeTargets []cidT
+	for _, c := range calls {
+		if c.site == nil {
+			continue
+		}
+		cands := []fnT{c.site.callee}
+		cands = append(cands, c.site.impls...)
+		for _, fn := range cands {
+			if fn.name == "" {
+				continue
+			}
+			targets = append(targets, cidT{fCtx: c.site.parent, fPkg: fn.pkg, fMeth: fn.name, fRecv: fn.recv, fVM: c.instr.String()})
+		}
+	}
+	for _, n := range nodes {
+		ty, _ := renderTy(n.node.ty)
+		k := map[string]string{"fieldStore": "store", "chanRecv": "channel receive"}[n.node.nk]
+		pkgName := declName(n.node.ty)
+		nodeTargets = append(nodeTargets, cidT{fCtx: n.node.parent, fPkg: pkgName, fFld: n.node.field, fTyp: ty, fKind: k},
+			cidT{fCtx: n.node.parent, fPkg: n.node.declPath, fFld: n.node.field, fTyp: ty, fKind: k})
+	}
+	var specs []*specT
+	callMask := []int{1 << 0, 1 << 1, 1 << 3, 1 << 4, 1 << 7} // ctx pkg meth recv vm
+	nodeMask := []int{1 << 0, 1 << 1, 1 << 5, 1 << 6}         // ctx pkg fld typ
+	mkMask := func(bits []int, must []int) int {
+		m := 0
+		for _, b := range bits {
+			if r.Intn(5) < 2 {
+				m |= b
+			}
+		}
+		for _, b := range must {
+			if r.Intn(4) > 0 {
+				m |= b
+			}
+		}
+		return m
+	}
+	for i := 0; i < nSpecs; i++ {
+		var s specT
+		if i%4 == 3 && len(nodeTargets) > 0 {
+			s = makeSpec(r, nodeTargets[r.Intn(len(nodeTargets))], mkMask(nodeMask, []int{1 << 6, 1 << 1}), false)
+			if r.Intn(3) > 0 && s.c[fFld] == "" && s.c[fTyp] == "" {
+				continue
+			}
+		} else {
+			s = makeSpec(r, targets[r.Intn(len(targets))], mkMask(callMask, []int{1 << 1, 1 << 3}), false)
+			s.c[fKind] = ""
+		}
+		s.c[fLabel] = ""
+		s.role = len(specs) % len(roles)
+		sp := s
+		specs = append(specs, &sp)
+	}
+	// specifications aimed at the recorded disagreement classes (names taken from the generated program)
+	addT := func(role string, c cidT) {
+		for i, rn := range roles {
+			if rn == role {
+				specs = append(specs, &specT{c: c, role: i})
+			}
+		}
+	}
+	for _, pk := range gp.pkgs[:2] {
+		q := regexp.QuoteMeta
+		addT("sources", cidT{fMeth: "^" + q(pk.IM) + "$", fRecv: "^t[0-9]+$"})
+		addT("sources", cidT{fPkg: "^package ", fMeth: "^" + q(pk.Fn) + "$"})
+		addT("backtracepoints", cidT{fPkg: "^package ", fMeth: "^" + q(pk.Fn) + "$"})
+		addT("sinks", cidT{fMeth: "^" + q(pk.IM) + "$", fRecv: "/" + q(pk.name) + "\\."})
+		addT("sinks", cidT{fMeth: "^t[0-9]+$"})
+		addT("sinks", cidT{fMeth: "^" + q(pk.Fn) + "$", fVM: q(pk.Fn) + "$"})
+		addT("sanitizers", cidT{fMeth: "^" + q(pk.Plain) + "$", fVM: q(pk.Plain) + "$"})
+		addT("sources", cidT{fPkg: "^" + q(pk.name) + "$", fTyp: q(pk.T)})
+		addT("sources", cidT{fTyp: q(pk.T), fFld: "^G$"})
+		addT("sources", cidT{fMeth: "^" + q(pk.PM) + "$", fRecv: "^$"})
+		addT("backtracepoints", cidT{fMeth: "^" + q(pk.Plain) + "$", fVM: "^$"})
+		addT("sources", cidT{fPkg: "^" + q(pk.path) + "$", fTyp: q(pk.T), fFld: "Secret"})
+	}
+	text := buildConfig(specs)
+	os.WriteFile(dir+"/config.yaml", []byte(text), 0o644)
+	cfg, err := loadConfig(text)
+	if err != nil {
+		rep.Fail("config-load-sites", "generated configuration rejected by config.Load: "+err.Error(), []byte(text), true)
+		return nil
+	}
+
+	// ---- oracle input
+	var in strings.Builder
+	expect := []string{} // what each answered line is about
+	type pairT struct {
+		call   *dumpedCall
+		callee *ssa.Function
+		truth  fnT
+	}
+	var pairsL []pairT
+	var realCids []string
+	factsOfRecord := map[int][]string{}
+	for i, c := range calls {
+		c.idx = i
+		if s := c.site; s != nil {
+			reg := ""
+			switch s.form {
+			case "invoke", "funcValue", "boundMethod", "closureCall":
+				reg = c.reg
+			}
+			fields := []string{s.form, s.kind, s.parent, c.instr.String(), reg, s.callee.pkg, s.callee.name, s.callee.recv, s.iface,
+				map[bool]string{true: "1", false: "0"}[s.fnValue], s.wrapper, fmt.Sprint(len(s.impls))}
+			for _, im := range s.impls {
+				fields = append(fields, im.pkg, im.name, im.recv)
+			}
+			in.WriteString(record("site", fields...))
+			in.WriteString(record("facts", c.facts...))
+			factsOfRecord[len(expect)] = c.facts
+			expect = append(expect, "facts")
+		} else {
+			in.WriteString(record("rawsite", c.facts...))
+		}
+		node := c.instr.(ssa.Node)
+		var e1, e0, s0 []cidT
+		taint.VerifIsEntrypointNode(state, true, node, recorder(&e1))
+		taint.VerifIsEntrypointNode(state, false, node, recorder(&e0))
+		taint.IsMatchingCodeIDWithCallee(recorder(&s0), nil, node)
+		in.WriteString(record("cids", "entry", "1"))
+		in.WriteString(record("cids", "entry", "0"))
+		in.WriteString(record("cids", "sink", "-"))
+		expect = append(expect, "cids", "cids", "cids")
+		realCids = append(realCids, canonCids(e1), canonCids(e0), canonCids(s0))
+		for _, callee := range c.callees {
+			var sc []cidT
+			taint.IsMatchingCodeIDWithCallee(recorder(&sc), callee, node)
+			pnf := "+" + lang.PackageNameFromFunction(callee)
+			in.WriteString(record("cids", "sink", pnf))
+			expect = append(expect, "cids")
+			realCids = append(realCids, canonCids(sc))
+			truth := fnOf(callee)
+			if s := c.site; s != nil {
+				switch s.form {
+				case "boundMethod", "methodExpr", "generic":
+					truth = s.callee // the wrapper stands for the declared method / function
+					if len(s.impls) > 0 {
+						truth = s.impls[0]
+					}
+				}
+			}
+			pairsL = append(pairsL, pairT{c, callee, truth})
+		}
+	}
+	for _, p := range pairsL {
+		in.WriteString(record("pair", fmt.Sprint(p.call.idx), "+"+lang.PackageNameFromFunction(p.callee), p.truth.pkg, p.truth.name, p.truth.recv))
+	}
+	type apairT struct {
+		pairT
+		arg        *dataflow.CallNodeArg
+		hasSummary bool
+	}
+	var apairs []apairT
+	for _, p := range pairsL {
+		sum := state.FlowGraph.Summaries[p.call.instr.Parent()]
+		if sum == nil {
+			continue
+		}
+		cn := sum.Callees[p.call.instr][p.callee]
+		if cn == nil || len(cn.Args()) == 0 {
+			continue
+		}
+		arg := cn.Args()[0]
+		ap := apairT{pairT: p, arg: arg, hasSummary: cn.CalleeSummary != nil}
+		var ac []cidT
+		ok := true
+		func() {
+			defer func() {
+				if e := recover(); e != nil {
+					ok = false
+				}
+			}()
+			taint.VerifIsMatchingCodeID(recorder(&ac), arg)
+		}()
+		if !ok {
+			rep.Count("arg-node:real-code-panics")
+			continue
+		}
+		pnf := "+" + lang.PackageNameFromFunction(p.callee)
+		sp, sn, full := "", "", ""
+		if ap.hasSummary {
+			par := cn.CalleeSummary.Parent
+			sp, sn, full = lang.PackageNameFromFunction(par), par.Name(), par.String()
+		}
+		in.WriteString(record("cids", "argat", fmt.Sprint(p.call.idx), pnf, sp, sn, full, map[bool]string{true: "1", false: "0"}[ap.hasSummary]))
+		expect = append(expect, "cids")
+		realCids = append(realCids, canonCids(ac))
+		apairs = append(apairs, ap)
+	}
+	for _, n := range nodes {
+		fields := append([]string{n.node.nk, n.node.parent, n.node.field, n.node.declPath}, n.node.ty...)
+		in.WriteString(record("node", fields...))
+		var v ssa.Value
+		switch x := n.instr.(type) {
+		case *ssa.FieldAddr:
+			v = x.X
+		case *ssa.Field:
+			v = x.X
+		case *ssa.Alloc:
+			v = x
+		case *ssa.Store:
+			v = x.Addr.(*ssa.FieldAddr).X
+		case *ssa.UnOp:
+			v = x.X
+		}
+		pn, tn, terr := taint.VerifFindEltTypePackage(v)
+		if terr != nil {
+			in.WriteString(record("nodefacts", "-", ""))
+		} else {
+			in.WriteString(record("nodefacts", "+"+pn, tn))
+		}
+		var nc []cidT
+		taint.VerifIsEntrypointNode(state, true, n.instr.(ssa.Node), recorder(&nc))
+		in.WriteString(record("cids", "node"))
+		expect = append(expect, "nodefacts", "cids")
+		realCids = append(realCids, canonCids(nc))
+	}
+	for _, s := range specs {
+		in.WriteString(record("spec", s.c[:]...))
+	}
+	for _, ap := range apairs {
+		sp, sn, full := "", "", ""
+		if ap.hasSummary {
+			par := ap.arg.ParentNode().CalleeSummary.Parent
+			sp, sn, full = lang.PackageNameFromFunction(par), par.Name(), par.String()
+		}
+		in.WriteString(record("apair", fmt.Sprint(ap.call.idx), "+"+lang.PackageNameFromFunction(ap.callee), ap.truth.pkg, ap.truth.name, ap.truth.recv,
+			sp, sn, full, map[bool]string{true: "1", false: "0"}[ap.hasSummary]))
+	}
+	in.WriteString("entrymatrix\nsinkmatrix\nnodematrix\nargmatrix\n")
+	os.WriteFile(dir+"/oracle_in.txt", []byte(in.String()), 0o644)
+	out, err := lib.RunOracle("oracle_c04", []byte(in.String()))
+	want := len(expect) + len(calls) + len(pairsL) + len(nodes) + len(apairs)
+	if err != nil || len(out) != want {
+		rep.Fail("oracle-run-sites", fmt.Sprintf("oracle failed: %v (%d lines, expected %d)", err, len(out), want), nil, true)
+		return nil
+	}
+	progText := func(file string) string {
+		return fmt.Sprintf("module %s, file %s:\n%s\n(whole module under %s; configuration %s/config.yaml)\n", gp.mod, file, gp.files[file], dir, dir)
+	}
+
+	// ---- facts and identifiers
+	ci := 0
+	mism := 0
+	for k, what := range expect {
+		line := out[k]
+		switch what {
+		case "facts":
+			if line != "facts ok" {
+				mism++
+				rep.Fail("site-facts:"+line, "the SSA shape of a call form differs from Entry.factsOf (model of x/tools SSA construction is wrong for this form): "+line+" REAL "+strings.Join(factsOfRecord[k], "\t"), []byte(line+"\n"+progText("main.go")), true)
+			}
+		case "nodefacts":
+			if line != "nodefacts ok" {
+				mism++
+				rep.Fail("node-facts:"+line, "FindEltTypePackage differs from Entry.eltTypePackage: "+line, []byte(line+"\n"+progText("main.go")), true)
+			}
+		case "cids":
+			if canonOracleCids(line) != realCids[ci] {
+				mism++
+				rep.Fail("cids:"+realCids[ci], fmt.Sprintf("identifiers built by the real code differ from the model (record %d): real=[%s] model=[%s]", k, realCids[ci], canonOracleCids(line)),
+					[]byte(fmt.Sprintf("real:  %s\nmodel: %s\n%s", realCids[ci], canonOracleCids(line), progText("main.go"))), true)
+			}
+			ci++
+		}
+	}
+	base := len(expect)
+
+	// ---- booleans
+	realEntry := func(s *specT, n ssa.Node) (res byte) {
+		defer func() {
+			if e := recover(); e != nil {
+				res = 'p'
+			}
+		}()
+		var b bool
+		switch roles[s.role] {
+		case "sources":
+			b = taint.IsSourceNode(state, &cfg.TaintTrackingProblems[s.idx], n)
+		case "backtracepoints":
+			b = backtrace.IsInterProceduralEntryPoint(state, &cfg.SlicingProblems[s.idx], n)
+		default:
+			return '-'
+		}
+		if b {
+			return '1'
+		}
+		return '0'
+	}
+	realSink := func(s *specT, callee *ssa.Function, n ssa.Node) (res byte) {
+		defer func() {
+			if e := recover(); e != nil {
+				res = 'p'
+			}
+		}()
+		var b bool
+		ts := &cfg.TaintTrackingProblems
+		switch roles[s.role] {
+		case "sinks":
+			b = taint.IsMatchingCodeIDWithCallee((*ts)[s.idx].IsSink, callee, n)
+		case "sanitizers":
+			b = taint.IsMatchingCodeIDWithCallee((*ts)[s.idx].IsSanitizer, callee, n)
+		case "validators":
+			b = taint.IsMatchingCodeIDWithCallee((*ts)[s.idx].IsValidator, callee, n)
+		default:
+			return '-'
+		}
+		if b {
+			return '1'
+		}
+		return '0'
+	}
+	outside, inDom, knownShape := 0, 0, 0
+	judge := func(stage string, site *siteT, where string, sp *specT, real, model, truth, dom byte, reason string, file string) {
+		key := fmt.Sprintf("%s|%s|%v", stage, where, sp.c)
+		rep.Case(key)
+		content := func() []byte {
+			return []byte(fmt.Sprintf("stage: %s\nlocation: %s\nrole: %s\nspecification:\n  %s\nreal: %c  model: %c  truth: %c  in proved domain: %c\n%s",
+				stage, where, roles[sp.role], sp.c.yaml("  "), real, model, truth, dom, progText(file)))
+		}
+		if truth == '-' { // no generator knowledge: model correspondence only
+			if real != model {
+				mism++
+				rep.Fail("site-model:"+key, fmt.Sprintf("%s: real=%c model=%c at %s for %v", stage, real, model, where, sp.c), content(), true)
+			}
+			return
+		}
+		if dom == '1' {
+			inDom++
+			if real != truth {
+				mism++
+				rep.Fail("site:"+key, fmt.Sprintf("%s: %s is %sidentified by %s specification %v but the generator's callee knowledge says %c", stage, where,
+					map[byte]string{'1': "", '0': "not ", 'p': "(panic) "}[real], roles[sp.role], sp.c, truth), content(), false)
+			} else if model != real {
+				mism++
+				rep.Fail("site-model:"+key, "Lean model disagrees with the real code although the real code equals the truth", content(), true)
+			}
+			return
+		}
+		outside++
+		if real != model {
+			mism++
+			rep.Fail("site:"+key, fmt.Sprintf("%s: real=%c model=%c truth=%c at %s for %v (outside the proved domain; the model no longer describes the code)", stage, real, model, truth, where, sp.c),
+				content(), real == truth)
+			return
+		}
+		if real != truth {
+			knownShape++
+			rep.Count("outside-domain-disagreement:" + stage + "/" + reason + "/" + direction(real))
+			corpusWrite("shape:"+stage+"/"+reason+"/"+direction(real), content())
+			rep.Fail("shape:"+stage+"/"+reason+"/"+direction(real),
+				fmt.Sprintf("%s: %s at %s for %v: real=%c truth=%c", stage, reason, where, sp.c, real, truth), content(), false)
+		}
+	}
+	for i, c := range calls {
+		parts := strings.Split(out[base+i], " ")
+		if len(parts) != 4 || len(parts[1]) != len(specs) {
+			rep.Fail("oracle-run-sites", "bad entrymatrix line: "+out[base+i], nil, true)
+			return nil
+		}
+		var n ssa.Node = c.instr.Value() // what scanEntryPoints passes: nil *ssa.Call for Go / Defer
+		where := fmt.Sprintf("%s [%s]", c.instr.String(), c.instr.Parent().String())
+		form := "raw"
+		if c.site != nil {
+			form = c.site.form + "/" + c.site.kind
+			if strings.Contains(c.site.parent, "$") {
+				form += "/in-closure"
+			}
+			where = fmt.Sprintf("%s:%d %s %s", c.site.file, c.site.line, form, where)
+		}
+		rep.Count("site-form:" + form)
+		for j, sp := range specs {
+			real := realEntry(sp, n)
+			if real == '-' {
+				continue
+			}
+			truth, dom := byte('-'), byte('0')
+			reason := ""
+			if c.site != nil {
+				truth, dom = parts[2][j], parts[3][j]
+				reason = entryReason(c.site, sp.c, real)
+				switch c.site.form {
+				case "boundMethod", "methodExpr", "closureCall", "generic":
+					truth = '-' // identification may happen inside the wrapper: decided end to end (stage 4)
+				}
+			}
+			judge("entry", c.site, where, sp, real, parts[1][j], truth, dom, reason, "main.go")
+		}
+	}
+	base += len(calls)
+	for i, p := range pairsL {
+		parts := strings.Split(out[base+i], " ")
+		if len(parts) != 4 || len(parts[1]) != len(specs) {
+			rep.Fail("oracle-run-sites", "bad sinkmatrix line: "+out[base+i], nil, true)
+			return nil
+		}
+		where := fmt.Sprintf("%s [%s] callee %s", p.call.instr.String(), p.call.instr.Parent().String(), p.callee.String())
+		for j, sp := range specs {
+			real := realSink(sp, p.callee, p.call.instr.(ssa.Node))
+			if real == '-' {
+				continue
+			}
+			truth, dom := byte('-'), byte('0')
+			reason := ""
+			if s := p.call.site; s != nil {
+				truth, dom = parts[2][j], parts[3][j]
+				if dom != '1' {
+					truth = '-' // outside the domain the call-argument nodes decide (below)
+				}
+			}
+			judge("sink", p.call.site, where, sp, real, parts[1][j], truth, dom, reason, "main.go")
+		}
+	}
+	base += len(pairsL)
+	for i, n := range nodes {
+		parts := strings.Split(out[base+i], " ")
+		if len(parts) != 3 || len(parts[1]) != len(specs) {
+			rep.Fail("oracle-run-sites", "bad nodematrix line: "+out[base+i], nil, true)
+			return nil
+		}
+		where := fmt.Sprintf("%s:%d %s %s [%s]", n.node.file, n.node.line, n.node.nk, n.instr.String(), n.instr.Parent().String())
+		rep.Count("location-kind:" + n.node.nk + map[bool]string{true: "(address of a store)", false: ""}[n.node.forStore])
+		for j, sp := range specs {
+			var real byte
+			if _, isStore := n.instr.(*ssa.Store); isStore && roles[sp.role] != "sources" && roles[sp.role] != "backtracepoints" {
+				real = realSink(sp, nil, n.instr.(ssa.Node))
+			} else {
+				real = realEntry(sp, n.instr.(ssa.Node))
+			}
+			if real == '-' {
+				continue
+			}
+			// truth of locations is the model's reading with the declaring package *path*; the code uses the
+			// package *name*: compared in the proved domain only when both coincide
+			truth := parts[2][j]
+			dom := byte('0')
+			if n.node.declPath == declName(n.node.ty) && !n.node.forStore {
+				dom = '1'
+			}
+			reason := "location-package-is-name-not-path"
+			if n.node.forStore {
+				reason = "address-of-field-store-identified-as-field-read"
+				truth = '0' // the address computed for a store is not a read of the field
+			}
+			judge("location", nil, where, sp, real, parts[1][j], truth, dom, reason, n.node.file)
+		}
+	}
+	base += len(nodes)
+	realArg := func(s *specT, arg *dataflow.CallNodeArg) (res byte) {
+		defer func() {
+			if e := recover(); e != nil {
+				res = 'p'
+			}
+		}()
+		var b bool
+		switch roles[s.role] {
+		case "sinks":
+			b = taint.VerifIsSink(state, &cfg.TaintTrackingProblems[s.idx], arg)
+		case "sanitizers":
+			b = taint.VerifIsSanitizer(state, &cfg.TaintTrackingProblems[s.idx], arg)
+		default:
+			return '-'
+		}
+		if b {
+			return '1'
+		}
+		return '0'
+	}
+	for i, ap := range apairs {
+		parts := strings.Split(out[base+i], " ")
+		if len(parts) != 4 || len(parts[1]) != len(specs) {
+			rep.Fail("oracle-run-sites", "bad argmatrix line: "+out[base+i], nil, true)
+			return nil
+		}
+		where := fmt.Sprintf("argument of %s [%s] callee %s (summary: %v)", ap.call.instr.String(), ap.call.instr.Parent().String(), ap.callee.String(), ap.hasSummary)
+		for j, sp := range specs {
+			real := realArg(sp, ap.arg)
+			if real == '-' {
+				continue
+			}
+			truth, dom := byte('-'), byte('0')
+			reason := ""
+			if s := ap.call.site; s != nil {
+				truth, dom = parts[2][j], parts[3][j]
+				reason = argReason(s, sp.c, real, ap.hasSummary)
+				switch s.form {
+				case "boundMethod", "methodExpr", "closureCall", "generic":
+					truth = '-' // decided end to end
+				}
+			}
+			judge("sink-arg", ap.call.site, where, sp, real, parts[1][j], truth, dom, reason, "main.go")
+		}
+	}
+	rep.Extra["sites_call_argument_nodes"] = len(apairs)
+	rep.Extra["sites_calls"] = len(calls)
+	rep.Extra["sites_generated"] = len(gp.sites)
+	rep.Extra["sites_callee_pairs"] = len(pairsL)
+	rep.Extra["sites_locations"] = len(nodes)
+	rep.Extra["sites_specs"] = len(specs)
+	rep.Extra["sites_in_proved_domain"] = inDom
+	rep.Extra["sites_outside_proved_domain"] = outside
+	rep.Extra["sites_known_shape_disagreements"] = knownShape
+	rep.Extra["sites_mismatches"] = mism
+	rep.Sample(map[string]any{"stage": "sites", "module": gp.mod, "site": fmt.Sprintf("%+v", *gp.sites[len(gp.sites)/2]), "spec": specs[0].c.String()})
+
+	// identifiers seen in the real program also feed the matrix stage
+	var res []cidT
+	seen := map[cidT]bool{}
+	for _, t := range targets {
+		if !seen[t] && len(res) < 60 {
+			seen[t] = true
+			res = append(res, t)
+		}
+	}
+	return res
+}
